@@ -8,6 +8,7 @@ import json
 import re
 
 import c03_blocks
+import c03_insert
 import flowutil
 import rowref
 import sheetgen
@@ -222,7 +223,12 @@ def run(ctx):
     ctx.stats["distribution"] = dist
     # the loop mechanics themselves: model (Comp/Blocks.v) <-> FlowParser, scope / unevaluated-content oracles
     nontrivial |= {("blocks", c) for c in c03_blocks.run(ctx, (6000 if thorough else 500) * ctx.scale)}
-    ctx.v.coverage["programs"] = ctx.stats.get("twins_equivalent", 0)
+    # insert_as_block: workbooks whose flows insert templates (typed arguments, data rows, inside loops, nested) against the
+    # reference desugaring "a block containing the template's rows instantiated with its own data row and arguments"
+    ins_nontrivial, ins_samples = c03_insert.run(ctx, (1500 if thorough else 45) * ctx.scale)
+    nontrivial |= {("insert", c) for c in ins_nontrivial}
+    samples += [dict(insert_as_block_workbook=s) for s in ins_samples[:1]]
+    ctx.v.coverage["programs"] = ctx.stats.get("twins_equivalent", 0) + ctx.stats.get("insert_as_block_twins", {}).get("twins_equivalent", 0)
     ctx.v.coverage["disagreements_checked"] = len(ctx.disagreements) + sum(ctx.v.viol_by_key.values())
     ctx.v.coverage["distinct_nontrivial"] = len(nontrivial)
     ctx.v.coverage["samples"] = samples
@@ -244,6 +250,8 @@ def replay(rep):
     r = rep["replay"]
     if r.get("fn") == "blocks":
         return c03_blocks.replay(r)
+    if r.get("fn") == "insert":
+        return c03_insert.replay(r)
     m = common.Model()
     outs = []
     for side in ("sugared", "desugared"):
